@@ -69,53 +69,40 @@ def decodeCp1252 (tbl : List (Option Nat)) : Bytes → PyM Str
       pure (c :: r)
     | none => throw .unicode
 
-def isCont (b : UInt8) : Bool := 0x80 ≤ b.toNat && b.toNat ≤ 0xBF
+/-- `chr(n)`, refusing what is not a scalar value -/
+def chrM (n : Nat) : PyM Char :=
+  match chr? n with
+  | some c => pure c
+  | none => throw .unicode
 
 /-- strict UTF-8: shortest form only, no surrogates (U+D800..U+DFFF), nothing above U+10FFFF,
-    truncated sequences rejected -/
-def decodeUtf8 : Bytes → PyM Str
-  | [] => pure []
-  | b0 :: rest =>
-    if b0.toNat < 0x80 then do
-      let r ← decodeUtf8 rest
-      pure (byteChar b0 :: r)
-    else if 0xC2 ≤ b0.toNat ∧ b0.toNat ≤ 0xDF then
-      match rest with
-      | b1 :: rest1 =>
-        if isCont b1 then
-          match chr? ((b0.toNat - 0xC0) * 64 + (b1.toNat - 0x80)) with
-          | some c => do
-            let r ← decodeUtf8 rest1
-            pure (c :: r)
-          | none => throw .unicode
-        else throw .unicode
-      | [] => throw .unicode
-    else if 0xE0 ≤ b0.toNat ∧ b0.toNat ≤ 0xEF then
-      match rest with
-      | b1 :: b2 :: rest2 =>
-        if (if b0.toNat = 0xE0 then 0xA0 else 0x80) ≤ b1.toNat ∧
-           b1.toNat ≤ (if b0.toNat = 0xED then 0x9F else 0xBF) ∧ isCont b2 then
-          match chr? ((b0.toNat - 0xE0) * 4096 + (b1.toNat - 0x80) * 64 + (b2.toNat - 0x80)) with
-          | some c => do
-            let r ← decodeUtf8 rest2
-            pure (c :: r)
-          | none => throw .unicode
-        else throw .unicode
-      | _ => throw .unicode
-    else if 0xF0 ≤ b0.toNat ∧ b0.toNat ≤ 0xF4 then
-      match rest with
-      | b1 :: b2 :: b3 :: rest3 =>
-        if (if b0.toNat = 0xF0 then 0x90 else 0x80) ≤ b1.toNat ∧
-           b1.toNat ≤ (if b0.toNat = 0xF4 then 0x8F else 0xBF) ∧ isCont b2 ∧ isCont b3 then
-          match chr? ((b0.toNat - 0xF0) * 262144 + (b1.toNat - 0x80) * 4096 + (b2.toNat - 0x80) * 64
-                        + (b3.toNat - 0x80)) with
-          | some c => do
-            let r ← decodeUtf8 rest3
-            pure (c :: r)
-          | none => throw .unicode
-        else throw .unicode
-      | _ => throw .unicode
+    truncated sequences rejected.  One byte at a time; `pending = some (need, acc, lo, hi)` while inside a
+    multi-byte sequence: `need` continuation bytes are still expected, the next one within `lo..hi`. -/
+def decodeUtf8Go : Bytes → Option (Nat × Nat × Nat × Nat) → PyM Str
+  | [], none => pure []
+  | [], some _ => throw .unicode
+  | b :: bs, none =>
+    if b.toNat < 0x80 then do
+      let r ← decodeUtf8Go bs none
+      pure (byteChar b :: r)
+    else if 0xC2 ≤ b.toNat ∧ b.toNat ≤ 0xDF then decodeUtf8Go bs (some (1, b.toNat - 0xC0, 0x80, 0xBF))
+    else if 0xE0 ≤ b.toNat ∧ b.toNat ≤ 0xEF then
+      decodeUtf8Go bs (some (2, b.toNat - 0xE0, if b.toNat = 0xE0 then 0xA0 else 0x80,
+                             if b.toNat = 0xED then 0x9F else 0xBF))
+    else if 0xF0 ≤ b.toNat ∧ b.toNat ≤ 0xF4 then
+      decodeUtf8Go bs (some (3, b.toNat - 0xF0, if b.toNat = 0xF0 then 0x90 else 0x80,
+                             if b.toNat = 0xF4 then 0x8F else 0xBF))
     else throw .unicode
+  | b :: bs, some (need, acc, lo, hi) =>
+    if lo ≤ b.toNat ∧ b.toNat ≤ hi then
+      if need ≤ 1 then do
+        let c ← chrM (acc * 64 + (b.toNat - 0x80))
+        let r ← decodeUtf8Go bs none
+        pure (c :: r)
+      else decodeUtf8Go bs (some (need - 1, acc * 64 + (b.toNat - 0x80), 0x80, 0xBF))
+    else throw .unicode
+
+def decodeUtf8 (bs : Bytes) : PyM Str := decodeUtf8Go bs none
 
 def decode (tbl : List (Option Nat)) : Name → Bytes → PyM Str
   | .ascii => decodeAscii
